@@ -335,6 +335,163 @@ def loop_exit_controls(an, header):
     return out
 
 
+def _branch(an, sw, val):
+    """(normal form of the condition a switch decides, value) with the discriminant of a helper's `if c {Some(..)} else {None}`
+    (`if c {1} else {0}`) read as a branch on c"""
+    d = norm(an.switches[sw])
+    for _ in range(4):
+        if d[0] == "ite" and d[2][0] == "c" and d[3][0] == "c" and d[2] != d[3]:
+            if val == str(d[2][1]):
+                d, val = d[1], "otherwise"
+            elif val == str(d[3][1]) or val == "otherwise":
+                d, val = d[1], "0"
+            else:
+                break
+        else:
+            break
+    return d, val
+
+
+def _is_name_compare(d, name):
+    return d[0] == "Eq" and name in d[1:] and any(x[0] == "payload" and x[1][0] == "call" and x[1][1] == "string_table::StringTable::get_raw"
+                                                   for x in d[1:] if isinstance(x, tuple))
+
+
+def walk_compares(an, rep, rule, key, w, skip_ok, what):
+    """Completeness needs every chain entry that is visited to be compared with the query: a trip round the walk that reaches the
+    next entry without passing the name comparison must have taken a decision that rules the entry out (`skip_ok`: for the GNU
+    table a hash mismatch; for the SysV table there is none).  A further condition in front of the comparison (`st_name != 0 && ..`)
+    hides symbols the table does contain."""
+    if len(an.loops) != 1:
+        return
+    header = next(iter(an.loops))
+    body = an.loops[header]
+    name = P(2)
+    cmp_blocks = set()
+    for b in body:
+        if b in an.switches and an.blocks[b]["term"]["k"] == "switch":
+            d, _ = _branch(an, b, "otherwise")
+            if _is_name_compare(d, name):
+                cmp_blocks.add(b)
+    if not cmp_blocks:
+        return          # where the name is compared is the soundness rule's concern
+    latches = {p for (p, h) in an.back_edges if h == header}
+    bad = []
+    n_paths = 0
+    stack = [(header, ())]
+    while stack and n_paths < 4096:
+        b, dec = stack.pop()
+        if b in cmp_blocks:
+            continue
+        if b in latches:
+            n_paths += 1
+            if not any(skip_ok(d, v) for d, v in dec):
+                bad.append(dec)
+            continue
+        term = an.blocks[b]["term"]
+        for t in an.succs[b]:
+            if t not in body or (b, t) in an.back_edges or (b, t) not in an.feasible:
+                continue
+            nd = dec
+            if term["k"] == "switch" and b in an.switches:
+                vals = [str(v) for v, tb in term["targets"] if tb == t]
+                if term["otherwise"] == t:
+                    vals.append("otherwise")
+                if len(vals) == 1:
+                    nd = dec + (_branch(an, b, vals[0]),)
+            stack.append((t, nd))
+    msg = ""
+    if bad:
+        conds = ["%s=%s" % (show(d)[:120], v) for d, v in bad[0] if not (d[0] == "discr" and d[1][0] == "call" and d[1][1] == "ops::Try::branch")]
+        msg = "; ".join(conds)[:400]
+    rep.require(not bad, rule, key + ":compares-every-entry", w,
+                "every trip round the walk compares the entry's name with the query%s (%d comparison-free trips, each justified)" % (what, n_paths),
+                "the chain walk can move on to the next entry without comparing the name (decisions taken: %s): a present symbol is reported absent" % msg)
+
+
+def early_exits(an, rep, rule, key, w, early_ok, what, target=None, subject="the chain walk", lost="a present symbol is reported absent"):
+    """Completeness, before the walk: a decision taken ahead of the chain walk that by-passes it (an early `Ok(None)`) must be one of
+    the enumerated reasons for which the table cannot contain the name (`early_ok`), or the failure arm of a `?`.  Any other early
+    answer (`if name.len() > 255 { return Ok(None) }`) reports symbols absent that the table contains."""
+    if target is None:
+        if len(an.loops) != 1:
+            return
+        header = next(iter(an.loops))
+        body = an.loops[header]
+    else:
+        header, body = target, ()
+    reach = {header}
+    work = [header]
+    while work:
+        x = work.pop()
+        for p in an.preds[x]:
+            if p not in reach and p not in body:
+                reach.add(p)
+                work.append(p)
+    n = 0
+    for b in sorted(reach - {header}):
+        term = an.blocks[b]["term"]
+        if term["k"] != "switch" or b not in an.switches or b not in an.entry:
+            continue
+        for t in an.succs[b]:
+            if t in reach or (b, t) not in an.feasible or an.blocks[t]["term"]["k"] == "unreachable":
+                continue
+            tt = an.blocks[t]["term"]
+            if tt["k"] == "call" and tt.get("target") is None:
+                continue          # the failure arm of an assertion (C01)
+            vals = [str(v) for v, tb in term["targets"] if tb == t]
+            if term["otherwise"] == t:
+                vals.append("otherwise")
+            if len(vals) != 1:
+                rep.bad(rule, "%s:early|bb%d" % (key, b), w, "UNRECOGNISED: several branch values by-pass %s from one test" % subject)
+                continue
+            d, val = _branch(an, b, vals[0])
+            n += 1
+            if d[0] == "discr" and d[1][0] == "call" and d[1][1] == "ops::Try::branch":
+                ok = val == "1"
+                why = "continues past a failed read"
+            else:
+                ok = early_ok(d, val) is True
+                why = "is not one of the accepted reasons (%s)" % what
+            rep.require(ok, rule, "%s:early|%s|%s" % (key, show(d)[:160], val), w, "%s is by-passed on %s=%s" % (subject, show(d)[:120], val),
+                        "the answer is given without %s on %s = %s, which %s: %s" % (subject, show(d)[:200], val, why, lost))
+    return n
+
+
+def ctor_refusals(rep, rule, key, an, w):
+    """Completeness of a table constructor: the bytes are refused only because they cannot hold the table the header declares (header
+    unreadable, a count that does not convert or overflows, a range outside the data) - never on a further condition on header values,
+    which would make lookups on a well-formed table impossible."""
+    from . import prov as _prov
+
+    def fmt(c):
+        if c[0] in ("conv", "overflow", "parse", "slice", "read"):
+            return True
+        if c[0] == "via":
+            return all(fmt(x) for x in c[2])
+        return False
+    stray, n = [], 0
+    for c, t, st in _prov.failure_causes(an):
+        n += 1
+        if not fmt(c):
+            stray.append("%s %s" % (c[0], [show(x)[:80] if isinstance(x, tuple) else x for x in c[1:3]]))
+    rep.require(not stray, rule, key + ":refusals", w, "%d error outcomes: header unreadable, count conversion / overflow, range outside the data" % n,
+                "the constructor refuses tables for a reason other than the declared layout not fitting the bytes (%s): a well-formed table cannot be looked up" % "; ".join(stray)[:300])
+
+
+def cond_holds(d, val):
+    """(atom, polarity): the branch (d, val) is taken when atom has truth value polarity; Ne / Not folded into the polarity"""
+    pol = val != "0"
+    for _ in range(6):
+        if d[0] == "Ne" and len(d) == 3:
+            d, pol = ("Eq",) + tuple(d[1:]), not pol
+        elif d[0] == "Not" and len(d) == 2:
+            d, pol = d[1], not pol
+        else:
+            break
+    return d, pol
+
+
 def walk_exits(an, rep, rule, key, w, stop_conditions, what):
     """The chain walk may be left only (a) with an error of a failed read, (b) with the symbol once its name compared equal,
     (c) on one of the enumerated end-of-chain conditions.  Any other way out loses symbols that are further down the chain."""
@@ -348,23 +505,12 @@ def walk_exits(an, rep, rule, key, w, stop_conditions, what):
         if sw is None or val is None:
             rep.bad(rule, "%s:exit" % key, w, "the chain walk is left unconditionally from bb%d (not under a single branch): symbols further down the chain are never compared" % frm)
             continue
-        d = norm(an.switches[sw])
-        # the discriminant of a helper's `if c {Some(..)} else {None}` is `if c {1} else {0}`: the branch is a branch on c
-        for _ in range(4):
-            if d[0] == "ite" and d[2][0] == "c" and d[3][0] == "c" and d[2] != d[3]:
-                if val == str(d[2][1]):
-                    d, val = d[1], "otherwise"
-                elif val == str(d[3][1]) or val == "otherwise":
-                    d, val = d[1], "0"
-                else:
-                    break
-            else:
-                break
+        d, val = _branch(an, sw, val)
         ds = show(d)[:200]
         if d[0] == "discr" and d[1][0] == "call" and d[1][1] == "ops::Try::branch":
             ok = val == "1"   # ControlFlow::Break = the residual (error) arm
             why = "leaves through the Continue arm of `?`"
-        elif d[0] == "Eq" and name in d[1:] and any(x[0] == "payload" and x[1][0] == "call" and x[1][1] == "string_table::StringTable::get_raw" for x in d[1:] if isinstance(x, tuple)):
+        elif _is_name_compare(d, name):
             ok = val == "otherwise"
             why = "leaves when the name does NOT match"
         else:
